@@ -165,9 +165,23 @@ def main():
             top.add(h.R(r=r)(p=top.a, n=top.b), name="r")
             top.add(h.C(c=c)(p=top.a, n=top.b), name="c")
             return top
+        if 9 <= k <= 12:
+            # PDK compiles of one device size written two ways (1*µ / 1000*n), per PDK: what a design compiles to must not
+            # depend on which spelling the process compiled first
+            from hdl21.prefix import Prefix, Prefixed
+            from vlib.checks import c15
+            pdkname = "sky130" if k <= 10 else "gf180"
+            pdkmod = c15.imp(pdkname)
+            num, pe = ("1", -6) if k % 2 else ("1000", -9)
+            top = h.Module(name="ShapePdk%d" % k)
+            top.d, top.g, top.s, top.b = h.Signals(4)
+            top.add(h.Mos(w=Prefixed(number=Decimal(num), prefix=Prefix(pe)), l=Prefixed(number=Decimal("500"), prefix=Prefix(-9)),
+                          tp=h.MosType.NMOS, family=h.MosFamily.CORE)(d=top.d, g=top.g, s=top.s, b=top.b), name="x")
+            pdkmod.compile(top)
+            return top
         raise ValueError(k)
 
-    NSHAPES = 9
+    NSHAPES = 13
     stats = {}
     items = job["items"]
     drop = job.get("drop", False)  # earlier designs are discarded and collected, so later objects re-use their addresses
